@@ -326,7 +326,8 @@ func c05Candidates(spec *c05Spec, ref *c05Ref, pr c05CandParams) ([]*c05Cand, []
 			}
 			for _, i := range sel {
 				it := cat[i]
-				if pr.OnlyMalf != "" && it.malf != pr.OnlyMalf {
+				if pr.OnlyMalf != "" && it.malf != pr.OnlyMalf &&
+					!(strings.HasSuffix(pr.OnlyMalf, "*") && strings.HasPrefix(it.malf, strings.TrimSuffix(pr.OnlyMalf, "*"))) {
 					continue
 				}
 				k := fmt.Sprintf("C05/%s/round%d/%s%s/%s", spec.Name, r, ctype, c05PathJoin(it.path), it.malf)
